@@ -184,3 +184,27 @@ func ZZ_C09_P2() {
 		zzverif.Reach("P2 end")
 	}
 }
+
+// ZZ_C09_P3: a well-formed but arbitrary transaction of every native type
+// against a state that has validators, stakes, rewards and an open proposal:
+// neither the mempool check nor delivery panics.
+func ZZ_C09_P3() {
+	sc := zzSetup(false)
+	n := sc.n
+	sc.nondetTx(false)
+	if zzverif.Choose("inBlock", 2) == 1 {
+		n.begin(1, nil, nil)
+		if !zzNoPanic("DeliverTx", func() { n.app.DeliverTx(abcitypes.RequestDeliverTx{Tx: sc.raw}) }) {
+			return
+		}
+	} else {
+		if !zzNoPanic("CheckTx", func() { n.app.CheckTx(abcitypes.RequestCheckTx{Tx: sc.raw, Type: abcitypes.CheckTxType_New}) }) {
+			return
+		}
+		n.begin(1, nil, nil)
+	}
+	if zzNoPanic("EndBlock/Commit", func() { n.end() }) {
+		zzverif.Assert(true, "P3 no panic")
+		zzverif.Reach("P3 end")
+	}
+}
